@@ -1429,8 +1429,14 @@ class Gen:
         if not ctx.get("interface_body"):
             ex = self.exec_part(sctx)
             if r.chance(10) and depth <= 1 and not ctx.get("internal"):
-                ex.insert(r.n(0, len(ex)), S("entry %s%s" % (r.pick(["ent1", "ent2"]),
-                                                            r.pick(["{+()}", "(x)"]) if not is_fun else "(x)"), "entry"))
+                en = r.pick(["ent1", "ent2"])
+                if is_fun:
+                    # R1235: ENTRY entry-name [ ( [ dummy-arg-list ] ) [ suffix ] ]
+                    form = r.pick(["(x)", "(x)", "() result(rv2)", "(x, y) result(rv2)", "() bind(c, name = 'c_e')",
+                                   "(x) result(rv2) bind(c)", "() result(rv2) bind(c, name = 'c_e2')"])
+                else:
+                    form = r.pick(["{+()}", "(x)", "(x, *)", "() bind(c)", "(x) bind(c, name = 'c_e')"])
+                ex.insert(r.n(0, len(ex)), S("entry %s%s" % (en, form), "entry"))
             segs = [(None, spec + ex)]
             if depth <= 1 and not ctx.get("internal") and r.chance(20):
                 inner = [self.subprogram(self._sub(ctx, internal=True), depth=depth + 1)
@@ -1580,7 +1586,7 @@ EXTRA_NAMES = ["dp", "ck", "ik", "lk", "lun", "ios", "fname", "nl", "blk", "res"
                "zz", "q", "jj", "kk", "pp", "pq", "fp", "gp", "run", "impl_m", "impl_q", "pm", "qm", "dm", "gen",
                "fin", "fin2", "base_t", "parent", "rem1", "rem2", "orig", "other_mod", "iso_c_binding", "sm0",
                "sm1", "sm2", "sub_m", "bd1", "bdat", "ifc_a", "ifc_b", "ifc_c", "ent1", "ent2", "p1", "p2", "swap",
-               "ea", "eb", "ec", "ed", "ee", "ef", "self", "m", "kp", "np", "pv", "pi"] + ["w%d" % i for i in range(16)]
+               "ea", "eb", "ec", "ed", "ee", "ef", "self", "m", "kp", "np", "pv", "pi", "rv2"] + ["w%d" % i for i in range(16)]
 ALL_NAMES = set(n.lower() for pool in (NUM_NAMES, INT_NAMES, LOG_NAMES, CHR_NAMES, ARR_NAMES, FUN_NAMES, SUB_NAMES,
                                        OBJ_NAMES, COMP_NAMES, TYPE_NAMES, MOD_NAMES, UNIT_NAMES, CONSTRUCT_NAMES,
                                        EXTRA_NAMES) for n in pool)
